@@ -117,12 +117,15 @@ func parseCtrlMsg(str string) ctrlMsg {
 
 	parts := strings.SplitN(str, " ", 2)
 	parts[0] = strings.ToUpper(parts[0])
+	if len(parts) < 2 {
+		parts = append(parts, "") // The command came without a value
+	}
 
 	msg := ctrlMsg{
 		cmd: command(parts[0]),
 	}
 
-	isEchoBack := len(parts) > 1 && strings.HasPrefix(strings.ToLower(parts[1]), "now ")
+	isEchoBack := strings.HasPrefix(strings.ToLower(parts[1]), "now ")
 	if isEchoBack {
 		parts[1] = parts[1][len("now "):]
 	}
